@@ -3,8 +3,9 @@
 #include <string.h>
 
 volatile int sh_in_library = 0;
+volatile int sh_call_ticks = 0;	/* CPU seconds (watchdog ticks) spent inside the current outermost API call */
 
-#define ENTER int sh_prev_ = sh_in_library; sh_in_library = 1
+#define ENTER int sh_prev_ = sh_in_library; if (!sh_prev_) sh_call_ticks = 0; sh_in_library = 1
 #define LEAVE sh_in_library = sh_prev_
 
 int sh_create(void **ses, int codec_id, int role)
